@@ -618,3 +618,90 @@ pub fn exec_c18(prop: &str, v: &Value) -> Report {
     }
     rep
 }
+
+// ---- bounded-exhaustive schedules (two preemption points) for queue and list micro-programs ----
+
+struct QMicro {
+    prefill: u8,
+    a: &'static [(QK, u8)],
+    b: &'static [(QK, u8)],
+    ka: u32,
+    kb: u32,
+}
+
+const QMICROS: &[QMicro] = &[
+    QMicro { prefill: 0, a: &[(QK::Push, 0), (QK::Push, 0)], b: &[(QK::TryPop, 0), (QK::TryPop, 0)], ka: 60, kb: 60 },
+    QMicro { prefill: 1, a: &[(QK::TryPop, 0), (QK::Push, 0)], b: &[(QK::TryPop, 0), (QK::TryPop, 0)], ka: 60, kb: 60 },
+    QMicro { prefill: 2, a: &[(QK::TryPopIf, 1), (QK::TryPopIf, 16)], b: &[(QK::TryPop, 0), (QK::Push, 0)], ka: 60, kb: 60 },
+    QMicro { prefill: 1, a: &[(QK::Push, 0), (QK::TryPopIf, 16)], b: &[(QK::Push, 0), (QK::TryPopIf, 16)], ka: 60, kb: 60 },
+    QMicro { prefill: 3, a: &[(QK::TryPopIf, 16), (QK::TryPopIf, 16)], b: &[(QK::TryPopIf, 16), (QK::TryPopIf, 1)], ka: 60, kb: 60 },
+    QMicro { prefill: 0, a: &[(QK::Push, 0), (QK::TryPop, 0), (QK::TryPop, 0)], b: &[(QK::Push, 0), (QK::TryPop, 0)], ka: 80, kb: 60 },
+];
+
+struct LMicro {
+    prefill: u8,
+    a: &'static [(LK, u8)],
+    b: &'static [(LK, u8)],
+    ka: u32,
+    kb: u32,
+}
+
+const LMICROS: &[LMicro] = &[
+    LMicro { prefill: 2, a: &[(LK::Insert, 0), (LK::Insert, 0)], b: &[(LK::Traverse, 0), (LK::Traverse, 0)], ka: 60, kb: 70 },
+    LMicro { prefill: 3, a: &[(LK::Delete, 0), (LK::Delete, 4)], b: &[(LK::Traverse, 0), (LK::Traverse, 0)], ka: 50, kb: 80 },
+    LMicro { prefill: 2, a: &[(LK::Insert, 0), (LK::Delete, 1), (LK::Traverse, 0)], b: &[(LK::Insert, 0), (LK::Delete, 1), (LK::Traverse, 0)], ka: 80, kb: 80 },
+    LMicro { prefill: 3, a: &[(LK::Delete, 0), (LK::Traverse, 0)], b: &[(LK::Delete, 4), (LK::Traverse, 0)], ka: 70, kb: 70 },
+    LMicro { prefill: 1, a: &[(LK::Insert, 0), (LK::Traverse, 0), (LK::Delete, 1)], b: &[(LK::Delete, 0), (LK::Insert, 0), (LK::Traverse, 0)], ka: 80, kb: 80 },
+];
+
+fn decode(sizes: &[(u32, u32)], stride: u32, i: u64) -> Option<(usize, u64, u32, u32)> {
+    let mut rest = i;
+    for (pi, (ka, kb)) in sizes.iter().enumerate() {
+        let (na, nb) = ((ka + stride - 1) / stride + 1, (kb + stride - 1) / stride + 1);
+        let per = 2 * na as u64 * nb as u64;
+        if rest >= per {
+            rest -= per;
+            continue;
+        }
+        let order = rest / (na as u64 * nb as u64);
+        let r2 = rest % (na as u64 * nb as u64);
+        let (ia, ib) = ((r2 / nb as u64) as u32, (r2 % nb as u64) as u32);
+        let k = if ia + 1 == na { u32::MAX / 2 } else { ia * stride };
+        let m = if ib + 1 == nb { u32::MAX / 2 } else { ib * stride };
+        return Some((pi, order, k, m));
+    }
+    None
+}
+
+fn two_point_sched(order: u64, k: u32, m: u32) -> Vec<Directive> {
+    let (first, second, kf, ks) = if order == 0 { (0u8, 1u8, k, m) } else { (1u8, 0u8, m, k) };
+    vec![
+        Directive { thread: first, until: Until::Steps(kf) },
+        Directive { thread: second, until: Until::Steps(ks) },
+        Directive { thread: first, until: Until::End },
+        Directive { thread: second, until: Until::End },
+    ]
+}
+
+pub fn qmicro_total(tier: crate::runner::Tier) -> u64 {
+    let stride: u32 = tier.pick(2, 1);
+    QMICROS.iter().map(|m| 2 * ((m.ka + stride - 1) / stride + 1) as u64 * ((m.kb + stride - 1) / stride + 1) as u64).sum()
+}
+pub fn qmicro_enumerate(tier: crate::runner::Tier, i: u64) -> Option<Value> {
+    let sizes: Vec<(u32, u32)> = QMICROS.iter().map(|m| (m.ka, m.kb)).collect();
+    let (pi, order, k, mm) = decode(&sizes, tier.pick(2, 1), i)?;
+    let m = &QMICROS[pi];
+    let ops = |l: &[(QK, u8)]| l.iter().map(|(k, a)| QOp { k: *k, a: *a }).collect::<Vec<_>>();
+    Some(serde_json::to_value(QCase { prefill: m.prefill, threads: vec![ops(m.a), ops(m.b)], sched: two_point_sched(order, k, mm) }).unwrap())
+}
+pub fn lmicro_total(tier: crate::runner::Tier) -> u64 {
+    let stride: u32 = tier.pick(2, 1);
+    LMICROS.iter().map(|m| 2 * ((m.ka + stride - 1) / stride + 1) as u64 * ((m.kb + stride - 1) / stride + 1) as u64).sum()
+}
+pub fn lmicro_enumerate(tier: crate::runner::Tier, i: u64) -> Option<Value> {
+    let sizes: Vec<(u32, u32)> = LMICROS.iter().map(|m| (m.ka, m.kb)).collect();
+    let (pi, order, k, mm) = decode(&sizes, tier.pick(2, 1), i)?;
+    let m = &LMICROS[pi];
+    let ops = |l: &[(LK, u8)]| l.iter().map(|(k, a)| LOp { k: *k, a: *a }).collect::<Vec<_>>();
+    Some(serde_json::to_value(LCase { prefill: m.prefill, threads: vec![ops(m.a), ops(m.b)], sched: two_point_sched(order, k, mm) }).unwrap())
+}
